@@ -142,7 +142,7 @@ func (x *Exec) bindResult(s *State, site ssa.Instruction, calleeName string, k f
 	if len(s.frames) == 0 {
 		return k
 	}
-	ct := x.P.contractFor(s.top().fn)
+	ct := x.P.contractFor(x.clauseFrame(s).fn)
 	if ct == nil || len(ct.Binds) == 0 {
 		return k
 	}
@@ -157,7 +157,7 @@ func (x *Exec) bindResult(s *State, site ssa.Instruction, calleeName string, k f
 	}
 	depth := len(s.frames)
 	return func(s2 *State, v Val) {
-		if len(s2.frames) == depth && s2.top().fn == x.fn {
+		if len(s2.frames) == depth && x.clauseFrame(s2).fn == x.fn {
 			for _, b := range hits {
 				if s2.binds == nil {
 					s2.binds = map[string]Val{}
@@ -941,7 +941,7 @@ func (x *Exec) autoInlinable(s *State, fn *ssa.Function) bool {
 }
 
 // smallStraight: the static part of autoInlinable (loop-freedom is checked by
-// the caller): at most 80 instructions in 16 blocks, no go / defer / closure.
+// the caller): at most 200 instructions in 40 blocks, no go / defer / closure.
 func smallStraight(fn *ssa.Function) bool {
 	if fn.Blocks == nil || fn.Synthetic != "" {
 		return false
@@ -956,7 +956,7 @@ func smallStraight(fn *ssa.Function) bool {
 			}
 		}
 	}
-	return n <= 80 && len(fn.Blocks) <= 16
+	return n <= 200 && len(fn.Blocks) <= 40
 }
 
 func hasBackEdge(fn *ssa.Function) bool {
